@@ -383,6 +383,9 @@ class HTTP(BaseComponent):
             elif value.errors:
                 error = value.value
                 _etype, evalue, _traceback = error
+                if req.handled:
+                    return
+                req.handled = True
                 if isinstance(evalue, RedirectException):
                     self.fire(redirect(req, res, evalue.urls, evalue.code))
                 elif isinstance(evalue, HTTPException):
@@ -399,6 +402,10 @@ class HTTP(BaseComponent):
                 value.notify = True
         elif isinstance(value, tuple):
             _etype, evalue, _traceback = error = value
+
+            if req.handled:
+                return
+            req.handled = True
 
             if isinstance(evalue, RedirectException):
                 self.fire(redirect(req, res, evalue.urls, evalue.code))
@@ -429,6 +436,11 @@ class HTTP(BaseComponent):
 
         if isinstance(fevent.value.parent.event, request):
             req, res = fevent.value.parent.event.args[:2]
+            # the error of an event fired by a request handler also arrives at _on_request_success
+            # (as the value of the request) when that runs afterwards: answer it once
+            if req.handled:
+                return
+            req.handled = True
         elif len(fevent.args[2:]) == 4:
             req, res = fevent.args[2:]
         elif len(fevent.args) == 2 and isinstance(fevent.args[0], socket):
